@@ -654,7 +654,20 @@ func ruleR064(c *Ctx) {
 							return true
 						}
 						if id, ok := ast.Unparen(r.Results[len(r.Results)-1]).(*ast.Ident); ok && id.Name == "nil" {
-							early = r
+							// a nil container has no elements: `if list == nil { return nil }` is no early success
+							nilGuard := false
+							if g := c.CFG(fd); g != nil {
+								for _, gd := range g.Guards(r) {
+									if be, ok := ast.Unparen(gd.Cond).(*ast.BinaryExpr); ok && be.Op == token.EQL && gd.Val {
+										if y, ok := ast.Unparen(be.Y).(*ast.Ident); ok && y.Name == "nil" {
+											nilGuard = true
+										}
+									}
+								}
+							}
+							if !nilGuard {
+								early = r
+							}
 						}
 						return true
 					})
